@@ -27,6 +27,10 @@ Robustness round 4 (normal forms that make families of spellings one thing; beni
   filled_form                a helper that fills a fresh Vec by push in one pass = filter().map().collect()
   fold_accumulator           the map threaded through try_fold is the map its closure fills
   binaries_fields            struct fields by type instead of by name
+Robustness round 5:
+  counter_nf / unbounded     zip with a never-ending counter (RangeFrom / repeat) = enumerate: Iteration.nrecv carries that structure
+  elementwise_base           the iterated expression a collection is derived from element by element (map / collect round trips)
+  handle_writes / follows_on_success   File::create(p)? + write_all(data)? on that handle = fs::write(p, data)?
 """
 from .lib import iters
 from .lib.discard import result_fates, verdict
@@ -266,10 +270,48 @@ def tolerates_only_not_found(E, f, c, targets):
 PASS_THROUGH = iters.SAME | iters.COLLECTING | {IT + 'enumerate'}
 
 
+_ENDLESS = ('std::iter::repeat', 'std::iter::repeat_with')
+
+
+def unbounded(v):
+    """an iterator that never ends: `(n..)` (RangeFrom), `iter::repeat(x)` / `repeat_with(f)` — zipping with it drops nothing"""
+    for _ in range(6):
+        v = strip(v)
+        if v[0] == 'call' and len(v[2]) == 1 and (v[1] in iters.SAME or v[1] == IT + 'enumerate' or v[1].endswith(('::into_iter', '::by_ref'))):
+            v = v[2][0]
+            continue
+        if v[0] == 'call' and len(v[2]) == 2 and v[1] in (IT + 'map', IT + 'inspect'):
+            v = v[2][0]
+            continue
+        break
+    if v[0] == 'agg':
+        return str(v[1] or '').endswith('ops::RangeFrom') or str(v[1] or '').endswith('range::RangeFrom')
+    return v[0] == 'call' and v[1] in _ENDLESS
+
+
+def counter_nf(v):
+    """robustness round 5: `counter.zip(xs)` / `xs.zip(counter)` with a never-ending counter (`(1..).zip(xs.iter())`) visits
+    exactly the elements of xs, in order — the same iteration as `xs.iter().enumerate()`.  The zip stage is rewritten to
+    `enumerate` (structure only: which elements are visited; the element *value* is still read off the original expression,
+    where the tuple positions are right)"""
+    def f(x):
+        if x[0] == 'call' and x[1] == IT + 'zip' and len(x[2]) == 2:
+            a, b = x[2]
+            if unbounded(a) and not unbounded(b):
+                return ('call', IT + 'enumerate', (b,), x[3] if len(x) > 3 else None)
+            if unbounded(b) and not unbounded(a):
+                return ('call', IT + 'enumerate', (a,), x[3] if len(x) > 3 else None)
+        return None
+    if v is None or not any(isinstance(x, tuple) and x and x[0] == 'call' and x[1] == IT + 'zip' for x in walk(v)):
+        return v
+    return _rewrite_all(v, f)
+
+
 def decompose(sl, v):
     """iterated expression -> (base collection, [(filter closure, receiver of that filter)], opaque?)"""
     filters = []
     opaque = False
+    v = counter_nf(v)
     for _ in range(16):
         v = strip(v)
         if v[0] != 'call' or not v[2]:
@@ -302,15 +344,22 @@ class Iteration:
         self.base = base      # the collection it ranges over, adapters peeled
         self.preds = preds    # [(value, outcome)] of filter stages
         self.opaque = opaque  # an adapter / shape whose selection we cannot state
+        self.nrecv = recv     # recv with zip-with-a-counter stages as enumerate (counter_nf)
 
 
 def _iteration(E, level, recv):
     sl = E.slicer
     base, filters, opaque = decompose(sl, recv)
-    al = iters.alts(sl, recv)
+    nrecv = counter_nf(recv)
+    al = iters.alts(sl, nrecv)
     elem = None
     if len(al) == 1:
         elem = al[0][0]
+        if nrecv is not recv:
+            # (tuple positions of a zip with a counter: as in the original expression)
+            al0 = iters.alts(sl, recv)
+            if len(al0) == 1:
+                elem = al0[0][0]
         if bool(al[0][2]) != bool(filters):
             opaque = True
     else:
@@ -323,7 +372,9 @@ def _iteration(E, level, recv):
             opaque = True
             continue
         preds.append(_peel_not(r))
-    return Iteration(level, recv, elem, base, preds, opaque)
+    it = Iteration(level, recv, elem, base, preds, opaque)
+    it.nrecv = nrecv
+    return it
 
 
 class Selection:
@@ -479,8 +530,8 @@ def every_element(E, e):
     it = reopen(sl, sel.iterations[0])
     if it.recv is None:
         return 'unproven', 'a loop whose collection is not known', it
-    if any(fl == 'trunc' for _, _, fl in iters.alts(sl, it.recv)) or \
-            any(st[3] for st in iters.stages(strip(it.recv), with_stop=True)):
+    if any(fl == 'trunc' for _, _, fl in iters.alts(sl, it.nrecv)) or \
+            any(st[3] for st in iters.stages(strip(it.nrecv), with_stop=True)):
         return 'violated', 'a truncating adapter (take / skip / take_while / map_while / ..) drops elements by position', it
     if it.preds:
         return 'violated', 'a filter stage drops elements: %s' % '; '.join(vstr(p[0])[:80] for p in it.preds), it
@@ -829,7 +880,7 @@ def reopen(sl, it):
     `for x in xs.iter().filter(p)`.)"""
     if it is None or not it.opaque or it.recv is None:
         return it
-    v = it.recv
+    v = it.nrecv
     filters = []
     for _ in range(24):
         v = strip(v)
@@ -846,11 +897,15 @@ def reopen(sl, it):
             break
     if v[0] == 'call' and v[1].startswith(('std::iter::', 'core::iter::')):
         return it     # another adapter (take, zip, chain, filter_map, ..): stays as decompose left it
-    if any(st[3] for st in iters.stages(strip(it.recv), with_stop=True)):
+    if any(st[3] for st in iters.stages(strip(it.nrecv), with_stop=True)):
         return it
-    al = iters.alts(sl, it.recv)
+    al = iters.alts(sl, it.nrecv)
     if len(al) != 1 or al[0][1] is None or bool(al[0][2]) != bool(filters):
         return it
+    if it.nrecv is not it.recv:
+        al0 = iters.alts(sl, it.recv)
+        if len(al0) == 1:
+            al = [(al0[0][0], al[0][1], al[0][2])]
     preds = []
     for clv, rv in filters:
         ra = iters.alts(sl, rv)
@@ -860,6 +915,69 @@ def reopen(sl, it):
         preds.append(_peel_not(r))
     it.base, it.elem, it.preds, it.opaque = al[0][1], al[0][0], preds, False
     return it
+
+
+def elementwise_base(v, mats=None):
+    """the iterated expression a collection is derived from *element by element* (map / cloned / inspect / collect round
+    trips: one output element per input element, none dropped or added): `xs.iter().map(f).collect::<Vec<_>>()` -> `xs.iter()`
+    (filters and everything below stay, for decompose); None when a stage that is not element-wise is met; the collected
+    intermediate collections passed on the way are appended to `mats`"""
+    for _ in range(24):
+        s_ = strip(v)
+        if s_[0] != 'call' or not s_[2]:
+            return v
+        name = s_[1]
+        if name in (IT + 'map', IT + 'inspect') and len(s_[2]) == 2:
+            v = s_[2][0]
+        elif name in iters.COLLECTING or name in iters.SAME or (name in _ELEMENTWISE and len(s_[2]) == 1 and name != IT + 'enumerate'):
+            if name in iters.COLLECTING and mats is not None:
+                mats.append(s_)         # a materialised intermediate collection (see never_mutated)
+            v = s_[2][0]
+        elif iters._is_source(name) and name.endswith(iters.SAME_ELEMS) and len(s_[2]) == 1:
+            inner = strip(s_[2][0])
+            if inner[0] == 'call' and (inner[1] in iters.COLLECTING or inner[1].startswith('std::iter::')):
+                v = s_[2][0]        # `.collect::<Vec<_>>().iter()`: go on below the round trip
+            else:
+                return v
+        elif name.startswith(('std::iter::', 'core::iter::')) and name != IT + 'filter':
+            return None
+        else:
+            return v
+    return None
+
+
+def never_mutated(prog, v):
+    """v = a collection made by a call at a known site (`.collect()`, `from_iter(..)`): the object the result lands in (the
+    call's destination, followed through plain moves / copies of the whole value) is never mutably borrowed in that function
+    — nothing is pushed / extended / removed after it was built, which the slicer's value would not show.
+    True / False; None when the site or the destination is not known"""
+    from .lib.mir import _rvalue_places
+    v = strip(v)
+    if v[0] != 'call' or len(v) < 4 or v[3] is None:
+        return None
+    f = prog.fns.get(v[3][0])
+    c = f.call_at(v[3][1]) if f is not None else None
+    d = getattr(c, 'dest', None) if c is not None else None
+    if not d or len(d) != 1 and any(d[1:]):
+        return None
+    objs = {d[0]}
+    for _ in range(8):
+        n = len(objs)
+        for b in f.blocks:
+            for st in b['s']:
+                if st[0] == '=' and st[2]['r'] == 'use' and len([x for x in st[1][1:] if x]) == 0:
+                    pl = op_place(st[2]['o'])
+                    if pl and pl[0] in objs and not [x for x in pl[1:] if x]:
+                        objs.add(st[1][0])
+        if len(objs) == n:
+            break
+    for b in f.blocks:
+        for st in b['s']:
+            if st[0] == '=':
+                for pl, how in _rvalue_places(st[2]):
+                    if pl and pl[0] in objs and how in ('refmut', 'rawptr'):
+                        return False
+    return True
 
 
 def entry_of(it):
@@ -1144,6 +1262,34 @@ def ok_gates(E, f, bb):
         for k in (common or ()):
             out.append([(E.subst(v, m), oc) for v, oc in keep[k].views()])
     return out
+
+
+def handle_writes(E, effs, cr):
+    """the WRITE_ALL effects (vocabulary entry `std::io::Write::write_all`) among `effs` whose receiver is the file handle
+    opened by effect `cr` (`File::create(..)?` — the handle is the success payload of that very call site, possibly behind
+    a BufWriter / &mut borrow)"""
+    site = (cr.call.fn.path, cr.call.bb)
+    out = []
+    for x in effs:
+        if x.kind != 'WRITE_ALL' or x.call is None or x.path is None or x.call.fn is not cr.call.fn:
+            continue
+        hv = strip(E.slicer.operand(x.call.fn, x.call.args[0])) if x.call.args else ('unknown',)
+        for _ in range(4):
+            if hv[0] == 'call' and len(hv[2]) == 1 and hv[1].endswith(('BufWriter::<W>::new', '::by_ref', '::as_mut', '::deref_mut', '::borrow_mut')):
+                hv = strip(hv[2][0])
+        if hv[0] == 'call' and len(hv) == 4 and hv[3] == site:
+            out.append(x)
+    return out
+
+
+def follows_on_success(E, a, b):
+    """a and b are calls of the same function f: b runs after a on every path from a to a success of f (so that f cannot
+    succeed having done a without b), and not before it"""
+    f = a.call.fn
+    if b.call.fn is not f or a.call.bb == b.call.bb or not f.dominates(a.call.bb, b.call.bb):
+        return False
+    sites = [s.bb for s in E.sites(f)] or list(f.return_blocks())
+    return bool(sites) and always_through(f, a.call.bb, b.call.bb, sites)
 
 
 def binaries_fields(prog, bbf):
